@@ -145,6 +145,16 @@ class Unit(object):
         o['_p'] = parent
         o['_u'] = self
         pos = None
+        if o.get('kind') == 'LambdaExpr' and isinstance(o.get('inner'), list) and len(o['inner']) >= 2:
+            # clang dumps a lambda's body twice: inside the closure type's call operator and again as the last child of
+            # the expression.  Keep the call operator's copy only, so that the body is visited once, as the function it is.
+            last = o['inner'][-1]
+            rec = o['inner'][0]
+            if isinstance(last, dict) and last.get('kind') == 'CompoundStmt' and isinstance(rec, dict) and rec.get('kind') == 'CXXRecordDecl' and \
+                    any(isinstance(m, dict) and m.get('kind') == 'CXXMethodDecl' and m.get('name') == 'operator()' and
+                        any(isinstance(b, dict) and b.get('kind') == 'CompoundStmt' for b in m.get('inner', ()))
+                        for m in rec.get('inner', ())):
+                o['inner'] = o['inner'][:-1]
         for k in list(o.keys()):
             if k == 'loc':
                 p = self._loc(o[k])
@@ -263,6 +273,16 @@ class Unit(object):
 
 FUNC_KINDS = ('FunctionDecl', 'CXXMethodDecl', 'CXXConstructorDecl',
               'CXXDestructorDecl', 'CXXConversionDecl')
+
+
+def owner_fn(x):
+    """The function (or lambda call operator) whose body directly contains the node x."""
+    p_ = x.get('_p')
+    while p_ is not None:
+        if p_.get('kind') in FUNC_KINDS:
+            return p_
+        p_ = p_.get('_p')
+    return None
 
 
 def body_of(fn):
